@@ -262,8 +262,11 @@ pub fn run(ctx: &mut Ctx) {
             }
             let case_hash = mix(tree.structural_hash() ^ named_hash(&c0) ^ mix(named_hash(&c1)));
             let detail = || json!({"game": tree.to_json(), "candidate": [c0, c1], "tags": tags, "desc": desc});
-            let fast = catch(|| game.from_named([c0.clone(), c1.clone()]));
-            let slow = catch(|| game.from_named_eq([c0.clone(), c1.clone()]));
+            // the listings are delivered through iterators whose size hints are honest but
+            // unhelpful in three cases out of four (outer and inner, see bridge::NoHint)
+            let mut lsalt = case_hash | 1;
+            let fast = catch(|| game.from_named([bridge::lazy_listing(&c0, &mut lsalt), bridge::lazy_listing(&c1, &mut lsalt)]));
+            let slow = catch(|| game.from_named_eq([bridge::lazy_listing(&c0, &mut lsalt), bridge::lazy_listing(&c1, &mut lsalt)]));
             let (fast, slow) = match (fast, slow) {
                 (Ok(f), Ok(s)) => (f, s),
                 (f, s) => {
@@ -292,7 +295,8 @@ pub fn run(ctx: &mut Ctx) {
                     c.iter().map(|(i, acts)| (bridge::weak(i, &mut salt), acts.iter().map(|(a, w)| (bridge::weak(a, &mut salt), *w)).collect())).collect()
                 };
                 let (w0, w1) = (weaken(&c0), weaken(&c1));
-                let wf = catch(|| wg.from_named([w0.clone(), w1.clone()]).map(|s| s.verif_probs().map(|v| v.to_vec())));
+                let mut salt2 = case_hash ^ 0x55;
+                let wf = catch(|| wg.from_named([bridge::lazy_listing(&w0, &mut salt2), bridge::lazy_listing(&w1, &mut salt2)]).map(|s| s.verif_probs().map(|v| v.to_vec())));
                 ctx.count("candidates_also_imported_with_colliding_hash_keys", 1);
                 let bad = match (&fast, &wf) {
                     (_, Err(m)) => Some(format!("from_named panicked with colliding-hash keys: {}", m)),
@@ -392,7 +396,7 @@ pub fn run(ctx: &mut Ctx) {
         }
     });
     ctx.finish(crate::report::extra(
-        "cases = (game, candidate named strategy for both players): a valid weight table (random profile x scale in {1,7,1e-3,1e200,1e-200}) with 0-3 mutations per player from {shuffle, duplicate action entry, repeated infoset with a subset of actions, dropped infoset, unknown infoset, other player's infoset, illegal action, special weight from {-1,-0,0,5e-324,1e-300,1,1e300,NaN,+-inf}, all-zero infoset, omitted action, empty action list, overflowing total, wrong action on a single-action infoset}. O4 computes the set of violated import rules and the expected weight/total table (last write wins); required: Ok iff the set is empty, Err(kind) in the set, stored probabilities (hook verif_probs) within 4 ulp of expected, and from_named == from_named_eq (same Ok value or same error kind); for half of the games the candidates are also imported into the same game built with a key type whose Hash collides almost always and whose Eq ignores case (only the parity of the name length is hashed; every occurrence of a name in random case): same verdict, bit-identical stored probabilities. distinct counted per judged candidate (cases are generated from independent streams); non-trivial = every candidate.",
+        "cases = (game, candidate named strategy for both players; every listing is handed over through iterators - outer and per infoset - whose size_hint is (0,None), (min(1,len),None), (min(1,len),len+2) or exact): a valid weight table (random profile x scale in {1,7,1e-3,1e200,1e-200}) with 0-3 mutations per player from {shuffle, duplicate action entry, repeated infoset with a subset of actions, dropped infoset, unknown infoset, other player's infoset, illegal action, special weight from {-1,-0,0,5e-324,1e-300,1,1e300,NaN,+-inf}, all-zero infoset, omitted action, empty action list, overflowing total, wrong action on a single-action infoset}. O4 computes the set of violated import rules and the expected weight/total table (last write wins); required: Ok iff the set is empty, Err(kind) in the set, stored probabilities (hook verif_probs) within 4 ulp of expected, and from_named == from_named_eq (same Ok value or same error kind); for half of the games the candidates are also imported into the same game built with a key type whose Hash collides almost always and whose Eq ignores case (only the parity of the name length is hashed; every occurrence of a name in random case): same verdict, bit-identical stored probabilities. distinct counted per judged candidate (cases are generated from independent streams); non-trivial = every candidate.",
         &["a single-action infoset mentioned with an empty action list is don't-care (the documentation does not say whether that covers it)"],
     ));
 }
